@@ -568,6 +568,16 @@ fn main() {
             seqx_main(&args)
         }
         "thrx" => thrx_main(&args),
+        "shards" => {
+            // which DashMap shard the driver keys live in (deterministic hasher of the vendored copy)
+            let m: dashmap::DashMap<String, u8> = dashmap::DashMap::new();
+            let mut out = Vec::new();
+            for k in ["0", "1", "2", "3", "9", "20", "21", "22", "23", "30", "k0", "k1", "k2"] {
+                out.push(format!("{k}->{}", m.determine_shard(m.hash_usize(&k.to_string()))));
+            }
+            println!("shards={} {}", m.shards().len(), out.join(" "));
+            0
+        }
         "cfgx" => {
             vsched::sequential_mode(true);
             cfgx_main(&args)
